@@ -29,6 +29,7 @@ Definition list_append (l : siglist) (o : guid) (data : bytes) : outcome siglist
   let d := normalize (sl_type l) data in
   if list_has l (mkSig o d) then Err 2
   else if guid_eqb (sl_type l) CERT_SHA256 && negb (blen d =? 32) then Err 3
+  else if negb (is_nil (sl_sigs l)) && negb (sl_size l =? blen d + 16) then Err 5
   else Ret (mkList (sl_type l) (sl_listsize l + (blen d + 16)) (sl_headersize l) (blen d + 16)
                    (sl_header l) (sl_sigs l ++ [mkSig o d])).
 
@@ -59,6 +60,25 @@ Fixpoint remove_first (sigs : list sigdata) (s : sigdata) : list sigdata :=
   match sigs with
   | [] => []
   | x :: r => if sig_eqb s x then r else x :: remove_first r s
+  end.
+
+(* SignatureList.RemoveBytes: the first matching entry goes; a list that
+   becomes empty is reset to a new list of its type *)
+Definition list_remove (l : siglist) (o : guid) (data : bytes) : outcome siglist :=
+  if list_has l (mkSig o data) then
+    match sl_sigs l with
+    | [_] => Ret (empty_list (sl_type l))
+    | _ => Ret (mkList (sl_type l) (sl_listsize l - sl_size l) (sl_headersize l) (sl_size l)
+                       (sl_header l) (remove_first (sl_sigs l) (mkSig o data)))
+    end
+  else Err 4.
+
+(* SignatureList.Exists: the index of the first matching entry *)
+Fixpoint index_of (sigs : list sigdata) (s : sigdata) : option N :=
+  match sigs with
+  | [] => None
+  | x :: r => if sig_eqb s x then Some 0
+              else match index_of r s with Some i => Some (i + 1) | None => None end
   end.
 
 (* SignatureDatabase.Remove; None = nothing to remove (an error is returned) *)
@@ -110,5 +130,17 @@ Definition db_step (db : list siglist) (op : dbop) : list siglist * bool :=
   | OpRemove t o d => match db_remove db t o d with Ret db' => (db', true) | _ => (db, false) end
   | OpAppendList l => (db_append_list db l, true)
   | OpRecode => match read_signature_database (enc_db db) with Ret db' => (db', true) | _ => (db, false) end
+  end.
+
+(* operations on one list, called directly (AppendBytes / AppendSignature,
+   RemoveBytes / RemoveSignature) *)
+Inductive lop :=
+| LAppend (o : guid) (data : bytes)
+| LRemove (o : guid) (data : bytes).
+
+Definition list_step (l : siglist) (op : lop) : siglist * bool :=
+  match op with
+  | LAppend o d => match list_append l o d with Ret l' => (l', true) | _ => (l, false) end
+  | LRemove o d => match list_remove l o d with Ret l' => (l', true) | _ => (l, false) end
   end.
 End Db.
